@@ -149,6 +149,20 @@ func (w *World) tamperCatalogue(req map[string]any, kind ref.OpKind, alg uint, s
 	}
 	// (e) reveal value substitution alone
 	add("reveal-substituted", with(func(r map[string]any) { r["revealValue"] = ref.Reveal(alg, attacker.RefJWK("")) }))
+	// the right key's hash, shortened or lengthened, re-encoded as a well-formed multihash (code, length, digest all agree)
+	if rv, isStr := req["revealValue"].(string); isStr {
+		if code, digest, derr := ref.DecodeMultihash(rv); derr == nil && len(digest) > 2 {
+			for _, l := range []int{0, 1, len(digest) / 2, len(digest) - 1} {
+				l := l
+				add(fmt.Sprintf("reveal-digest-truncated-%d", l), with(func(r map[string]any) {
+					r["revealValue"] = ref.B64(ref.MultihashBytes(code, digest[:l]))
+				}))
+			}
+			add("reveal-digest-extended", with(func(r map[string]any) {
+				r["revealValue"] = ref.B64(ref.MultihashBytes(code, append(append([]byte{}, digest...), 0)))
+			}))
+		}
+	}
 	add("reveal-other-algorithm", with(func(r map[string]any) {
 		oa := uint(ref.SHA512)
 		if alg == ref.SHA512 {
